@@ -15,17 +15,37 @@ pub proof fn lemma_cert_ptrs_step(s: Seq<(Certificate, Option<ScriptWitnessType>
     requires 0 <= i < s.len()
     ensures cert_ptrs(s.take(i + 1), tag) == (match s[i].1 { Some(ScriptWitnessType::PlutusScriptWitness(w)) => cert_ptrs(s.take(i), tag).push(with_ptr(w, i as nat, tag)), _ => cert_ptrs(s.take(i), tag) })
 { assert(s.take(i + 1).drop_last() =~= s.take(i)); }
-/// (withdrawals) as the code is: index = insertion position.  The ledger wants the rank in reward-account order; the two agree only when
-/// withdrawals were added in that order (recorded scope note, see DESIGN 13.3)
-pub open spec fn wd_ptrs(s: Seq<(RewardAddress, (Coin, Option<ScriptWitnessType>))>, tag: RedeemerTag) -> Seq<PlutusWitness> decreases s.len() {
+/// C10 (withdrawals): reward redeemers index the withdrawals in REWARD-ACCOUNT ORDER (the ledger keeps `Map RewardAccount Coin`): the
+/// pointer of a script withdrawal is the number of withdrawals whose reward account precedes its own, whatever the insertion order.
+/// ra_lt is the ledger's strict order on reward accounts: network id, then script credentials before key credentials, then hash bytes.
+pub open spec fn lex_lt(a: Seq<u8>, b: Seq<u8>) -> bool decreases a.len() {
+    if b.len() == 0 { false } else if a.len() == 0 { true } else if a[0] != b[0] { a[0] < b[0] } else { lex_lt(a.subrange(1, a.len() as int), b.subrange(1, b.len() as int)) }
+}
+pub open spec fn ra_lt(a: RewardAddress, b: RewardAddress) -> bool {
+    if a.network != b.network { a.network < b.network }
+    else if a.payment.is_script() != b.payment.is_script() { a.payment.is_script() }
+    else { lex_lt(a.payment.raw(), b.payment.raw()) }
+}
+pub open spec fn rank_in(s: Seq<(RewardAddress, (Coin, Option<ScriptWitnessType>))>, a: RewardAddress) -> nat decreases s.len() {
+    if s.len() == 0 { 0 } else { rank_in(s.drop_last(), a) + (if ra_lt(s.last().0, a) { 1nat } else { 0nat }) }
+}
+pub proof fn lemma_rank_step(s: Seq<(RewardAddress, (Coin, Option<ScriptWitnessType>))>, i: int, a: RewardAddress)
+    requires 0 <= i < s.len()
+    ensures rank_in(s.take(i + 1), a) == rank_in(s.take(i), a) + (if ra_lt(s[i].0, a) { 1nat } else { 0nat }), rank_in(s.take(i), a) <= i
+    decreases i
+{
+    assert(s.take(i + 1).drop_last() =~= s.take(i));
+    if i > 0 { lemma_rank_step(s, i - 1, a); }
+}
+pub open spec fn wd_ptrs(all: Seq<(RewardAddress, (Coin, Option<ScriptWitnessType>))>, s: Seq<(RewardAddress, (Coin, Option<ScriptWitnessType>))>, tag: RedeemerTag) -> Seq<PlutusWitness> decreases s.len() {
     if s.len() == 0 { Seq::empty() } else {
-        let p = wd_ptrs(s.drop_last(), tag);
-        match s.last().1.1 { Some(ScriptWitnessType::PlutusScriptWitness(w)) => p.push(with_ptr(w, (s.len() - 1) as nat, tag)), _ => p }
+        let p = wd_ptrs(all, s.drop_last(), tag);
+        match s.last().1.1 { Some(ScriptWitnessType::PlutusScriptWitness(w)) => p.push(with_ptr(w, rank_in(all, s.last().0), tag)), _ => p }
     }
 }
-pub proof fn lemma_wd_ptrs_step(s: Seq<(RewardAddress, (Coin, Option<ScriptWitnessType>))>, i: int, tag: RedeemerTag)
+pub proof fn lemma_wd_ptrs_step(all: Seq<(RewardAddress, (Coin, Option<ScriptWitnessType>))>, s: Seq<(RewardAddress, (Coin, Option<ScriptWitnessType>))>, i: int, tag: RedeemerTag)
     requires 0 <= i < s.len()
-    ensures wd_ptrs(s.take(i + 1), tag) == (match s[i].1.1 { Some(ScriptWitnessType::PlutusScriptWitness(w)) => wd_ptrs(s.take(i), tag).push(with_ptr(w, i as nat, tag)), _ => wd_ptrs(s.take(i), tag) })
+    ensures wd_ptrs(all, s.take(i + 1), tag) == (match s[i].1.1 { Some(ScriptWitnessType::PlutusScriptWitness(w)) => wd_ptrs(all, s.take(i), tag).push(with_ptr(w, rank_in(all, s[i].0), tag)), _ => wd_ptrs(all, s.take(i), tag) })
 { assert(s.take(i + 1).drop_last() =~= s.take(i)); }
 
 /// C10 (mint): the minting redeemers point at the position of their policy among the builder's policies in ASCENDING policy-id order
